@@ -38,7 +38,8 @@ SERHS = P.verify(fn(
     args=dict(self=Ref('Sector'), varname=STR, rhs=STR),
     ensures=[('installed_as_one_blob', "len(%s[varname].TermList) == 1 and %s[varname].TermList[0].IsBlob and %s[varname].TermList[0].Term == nospace(rhs)" % (BLK, BLK, BLK)),
              ('same_variables', 'all(has(%s, s) == old(has(%s, s)) and %s[s] is old(%s[s]) for s in strings())' % (BLK, BLK, BLK, BLK)),
-             ('other_equations_untouched', 'all(implies(has(%s, s) and %s[s] is not %s[varname], %s[s].TermList is old(%s[s].TermList)) for s in strings())' % (BLK, BLK, BLK, BLK, BLK))],
+             ('other_equations_untouched', 'all(implies(has(%s, s) and %s[s] is not %s[varname], %s[s].TermList is old(%s[s].TermList)) for s in strings())' % (BLK, BLK, BLK, BLK, BLK)),
+             ('existing_lists_and_dicts_untouched', 'lists_unchanged() and dicts_unchanged()')],
     raises=[RaisesSpec('KeyError', when='not has(%s, varname)' % BLK, iff=True, ensures=[('nothing_changed', "heap_unchanged_except('tyof', 'f.Term.*')")])],
 ))
 
